@@ -83,20 +83,24 @@ Inductive qstepc :=
 | QStep (o : qop) (r : Z) (after : list iobs)
 | QStepNoObs (o : qop) (r : Z).   (* inside one end-block: the state is observed after the last election only *)
 
+(** The verifier of the EVM queues looks at the LAST 20 BYTES of the registered Pubkey blob; the harness numbers a blob
+    1000 * (id of those 20 bytes) + encoding variant, a signature is described by the id of the EVM key that made it. *)
+Definition qverify (b : sbytes) (sg : isig) (k : Z) : bool := iverify b sg (k / 1000).
+
 Definition qcheck_step (acc : option (state isig)) (st : qstepc) : option (state isig) :=
   match acc, st with
   | None, _ => None
   | Some s, QStep o r after =>
-      let '(s', r') := step isig iverify s (to_op o) in
+      let '(s', r') := step isig qverify s (to_op o) in
       if (res_code r' =? r) && list_eqb iobs_eqb (map obs_item (st_items s')) after then Some s' else None
   | Some s, QStepNoObs o r =>
-      let '(s', r') := step isig iverify s (to_op o) in
+      let '(s', r') := step isig qverify s (to_op o) in
       if res_code r' =? r then Some s' else None
   end.
 
 (** every stored signature verifies against the item's current bytes (the model-side twin of the oracle) *)
 Definition all_valid (s : state isig) : bool :=
-  forallb (fun it => forallb (fun e => iverify (sign_bytes it) (se_sig e) (se_key e)) (it_sigs it)) (st_items s).
+  forallb (fun it => forallb (fun e => qverify (sign_bytes it) (se_sig e) (se_key e)) (it_sigs it)) (st_items s).
 
 (** ** batches *)
 
@@ -118,7 +122,8 @@ Inductive bop :=
 | BBld (contract chain body timeout relayer : Z)
 | BCnf (v nonce contract signer : Z) (s : cspec)
 | BUpd (nonce contract est : Z)
-| BRem (nonce contract : Z).
+| BRem (nonce contract : Z)
+| BRbd (nonce contract body : Z).
 
 Definition to_cop (o : bop) : cop icsig :=
   match o with
@@ -128,6 +133,7 @@ Definition to_cop (o : bop) : cop icsig :=
   | BCnf v n ct sg s => BConfirm v n ct sg (to_icsig s)
   | BUpd n ct e => BUpdateEstimate n ct e
   | BRem n ct => BRemove n ct
+  | BRbd n ct b => BRebody n ct b
   end.
 
 Definition cres_code (r : cres) : Z :=
